@@ -259,7 +259,12 @@ impl MacroTools {
                 continue;
             }
             let name = m["target"]["name"].as_str().unwrap_or("").to_string();
-            if ["typify", "serde", "serde_json", "chrono", "uuid", "regress"].contains(&name.as_str()) {
+            const WANTED: &[&str] = &[
+                "typify", "serde", "serde_json", "chrono", "uuid", "regress",
+                // stand-ins for the fake crates of the x-rust-type pool and their renames
+                "base64", "my_crate_x", "uuid1", "h2", "plain", "renamed", "other_name", "alt_2", "zz_alias",
+            ];
+            if WANTED.contains(&name.as_str()) {
                 if let Some(f) = m["filenames"].as_array().and_then(|a| a.iter().filter_map(|x| x.as_str()).find(|x| x.ends_with(".rlib"))) {
                     let p = PathBuf::from(f);
                     deps = p.parent().map(|d| d.to_path_buf());
@@ -269,8 +274,8 @@ impl MacroTools {
         }
         externs.sort();
         externs.dedup_by(|a, b| a.0 == b.0);
-        if externs.len() != 6 {
-            return Err(format!("macro host: expected 6 extern artifacts, found {:?}", externs));
+        if externs.len() != 15 {
+            return Err(format!("macro host: expected 15 extern artifacts, found {:?}", externs));
         }
         let rustfmt = crate::procsim::find_rustfmt()?;
         let rustc = rustfmt.with_file_name("rustc");
